@@ -310,7 +310,7 @@ func TestZZVerifC16Replay(t *testing.T) {
 	}
 
 	live := zzC16NewLive(t)
-	n, bad, flaky := 0, 0, 0
+	n, bad, flaky, more := 0, 0, 0, 0
 	for pass := 0; pass < passes; pass++ {
 		rng.Shuffle(len(keys), func(i, j int) { keys[i], keys[j] = keys[j], keys[i] })
 		for _, k := range keys {
@@ -326,6 +326,14 @@ func TestZZVerifC16Replay(t *testing.T) {
 				}
 
 				if zzC16Admissible(v, got) {
+					continue
+				}
+
+				// On a broken tree thousands of vectors disagree: once sixty
+				// have been reproduced the rest is only counted.
+				if bad >= 60 {
+					more++
+
 					continue
 				}
 
@@ -350,7 +358,7 @@ func TestZZVerifC16Replay(t *testing.T) {
 		}
 	}
 
-	w.put(map[string]any{"kind": "summary", "n": n, "bad": bad, "flaky": flaky, "reconfigurations": live.prep, "passes": passes})
+	w.put(map[string]any{"kind": "summary", "n": n, "bad": bad, "flaky": flaky, "not_reproduced_beyond_cap": more, "reconfigurations": live.prep, "passes": passes})
 }
 
 // ---------------------------------------------------------------- direction B
